@@ -32,7 +32,9 @@ echo "apply=$res_apply build=$res_build suite=$res_suite demo_with_change=$res_d
 # run the checks against the change in /repo
 detected=""
 if [ "$res_apply" = ok ] && [ "$res_suite" = pass ] && [ "$res_demo_with" = fail ] && [ "$res_demo_without" = pass ]; then
-  for p in $prop $others; do ./bin/yqv check $p --tier quick 2>&1 | grep "^VIOLATION" | sed 's/ no-failing-input-found//' | sort > /tmp/wt/base_${name}_$p.txt; done
+  # the unchanged tree has no VIOLATION lines (checked by the full runs before and after a seeding round): with
+  # FAST=1 the base run and the evidence-restoring run are left out (refresh the evidence afterwards)
+  for p in $prop $others; do if [ -n "${FAST:-}" ]; then : > /tmp/wt/base_${name}_$p.txt; else ./bin/yqv check $p --tier quick 2>&1 | grep "^VIOLATION" | sed 's/ no-failing-input-found//' | sort > /tmp/wt/base_${name}_$p.txt; fi; done
   git -C /repo apply $dst/patch.diff
   for p in $prop $others; do
     out=$(./bin/yqv check $p --tier quick 2>&1)
@@ -44,7 +46,7 @@ if [ "$res_apply" = ok ] && [ "$res_suite" = pass ] && [ "$res_demo_with" = fail
   done
   git -C /repo checkout -- .
   # restore evidence written during the seeded run
-  for p in $prop $others; do ./bin/yqv check $p --tier quick >/dev/null 2>&1; done
+  if [ -z "${FAST:-}" ]; then for p in $prop $others; do ./bin/yqv check $p --tier quick >/dev/null 2>&1; done; fi
 fi
 python3 - <<PY
 import json
